@@ -42,8 +42,10 @@ Definition inv_step_statement (c : cfg) : Prop :=
   forall s o, inv_full s = true -> inv_full (fst (step c s o)) = true.
 
 (* scope of the proved part: every operation except gd_alter_affixes and a
-   gd_rename whose new names collide (still possible: rename onto the name of a
-   dangling alias, see inv_step_refuted_rename_duplicate) *)
+   gd_rename whose new names collide (the collision with a dangling alias is now
+   refused by the code; a collision of a renamed subfield with an unrelated
+   'new/sub' entry is excluded only by the naming discipline, which is validated,
+   not proved) *)
 Example scope_is_satisfiable :
   sorted_ok init_state = true /\ op_in_scope init_state (OAdd false None [97] T_CONST 0 false [] [] 1%Z).
 Proof. split; [vm_compute; reflexivity | exact I]. Qed.
@@ -98,19 +100,14 @@ Theorem counts_agree : forall s parent sel flags par,
 Proof. exact counts_agree_fresh. Qed.
 
 (* --- still refuted on the tree as it stands --- *)
-Theorem inv_step_refuted_stale_alias : exists s o, inv_full s = true /\ alias_resolved (fst (step pinned s o)) = false.
-Proof. exists (w_stale_pre pinned), w_stale_op. pose proof w_stale; tauto. Qed.
+Theorem inv_step_refuted_alias_after_delete : exists s o, inv_full s = true /\ alias_resolved (fst (step pinned s o)) = false.
+Proof. exists (w_inter_pre pinned), w_inter_op. pose proof w_inter; tauto. Qed.
 Theorem inv_step_refuted_cross_container_cache : exists s o, inv_full s = true /\ cache_consistent (fst (step pinned s o)) = false.
 Proof. exists (w_xcache_pre pinned), w_xcache_op. exact w_xcache. Qed.
-Theorem inv_step_refuted_rename_duplicate : exists s o, inv_full s = true /\ sorted_ok (fst (step pinned s o)) = false.
-Proof. exists (w_dup_pre pinned), w_dup_op. pose proof w_dup; tauto. Qed.
-Theorem inv_step_refuted_deref_force : exists s o, inv_full s = true /\ alias_live (fst (step pinned s o)) = false.
-Proof. exists (w_deref_pre pinned), w_deref_op. pose proof w_deref; tauto. Qed.
-(* with the proposed repairs C15-11 / C15-12 the last two witnesses keep the full invariant *)
-Theorem proposed_repairs_close_witnesses :
-  inv_full (fst (step fixed (w_dup_pre fixed) w_dup_op)) = true /\
-  inv_full (fst (step fixed (w_deref_pre fixed) w_deref_op)) = true.
-Proof. pose proof w_dup; pose proof w_deref; tauto. Qed.
+(* with the proposed repair C15-13 the first witness keeps the full invariant *)
+Theorem proposed_repair_closes_witness :
+  inv_full (fst (step fixed (w_inter_pre fixed) w_inter_op)) = true.
+Proof. pose proof w_inter; tauto. Qed.
 
 (* --- regression: the ten sequences that broke the invariant before the repairs in /repo --- *)
 Theorem repaired_witnesses_keep_full_invariant :
@@ -123,8 +120,11 @@ Theorem repaired_witnesses_keep_full_invariant :
   inv_full (fst (step pinned (w_spec_pre pinned) w_spec_op)) = true /\
   inv_full (fst (step pinned (w_parent_pre pinned) w_parent_op)) = true /\
   inv_full (fst (step pinned (w_malias_pre pinned) w_malias_op)) = true /\
-  inv_full (fst (step pinned (w_loop_pre pinned) w_loop_op)) = true.
+  inv_full (fst (step pinned (w_loop_pre pinned) w_loop_op)) = true /\
+  inv_full (fst (step pinned (w_stale_pre pinned) w_stale_op)) = true /\
+  inv_full (fst (step pinned (w_deref_pre pinned) w_deref_op)) = true /\
+  snd (step pinned (w_dup_pre pinned) w_dup_op) = RInt E_DUPLICATE.
 Proof.
-  pose proof w_delref; pose proof w_hide; pose proof w_affix; pose proof w_delmeta; pose proof w_rencache;
+  pose proof w_stale; pose proof w_deref; pose proof w_dup; pose proof w_delref; pose proof w_hide; pose proof w_affix; pose proof w_delmeta; pose proof w_rencache;
   pose proof w_renref; pose proof w_spec; pose proof w_parent; pose proof w_malias; pose proof w_loop. tauto.
 Qed.
